@@ -29,7 +29,7 @@ MUST_NOT_BE_SELF = {"port_only_difference", "interface_ip_other_port", "peer"}
 SIZES = {
     "quick": dict(
         configs=["A", "B"],
-        mc={"A": dict(ids=[1], errs=[1], maxfails=1, maxgen=3)},
+        mc={"A": dict(ids=[1], errs=[1], maxfails=1, maxgen=2)},
         paths={"A": [dict(universe="full", depth=2, ids=[1], errs=[1], variants=[0])]},
         cover={"A": dict(small=4, ids=[1], errs=[1], variants=[0, 1, 2, 3], maxfails=2)},
         sim={"A": [500], "B": [300]},
@@ -38,14 +38,14 @@ SIZES = {
     ),
     "thorough": dict(
         configs=["A", "B"],
-        mc={"A": dict(ids=[1, 2], errs=[1], maxfails=2, maxgen=5), "B": dict(ids=[1, 2], errs=[1], maxfails=2, maxgen=4)},
+        mc={"A": dict(ids=[1, 2], errs=[1], maxfails=2, maxgen=4), "B": dict(ids=[1], errs=[1], maxfails=2, maxgen=4)},
         paths={"A": [dict(universe="full", depth=2, ids=[1, 2], errs=[1], variants=[0, 3]),
                      dict(universe="small", small=5, depth=3, ids=[1], errs=[1], variants=[0])],
                "B": [dict(universe="full", depth=2, ids=[1], errs=[1], variants=[0])]},
-        cover={"A": dict(small=5, ids=[1, 2], errs=[1], variants=[0, 1, 2, 3], maxfails=2),
+        cover={"A": dict(small=5, ids=[1, 2], errs=[1], variants=[0, 3], maxfails=2),
                "B": dict(small=5, ids=[1], errs=[1], variants=[0, 1, 2, 3], maxfails=2)},
-        sim={"A": [12000, 12000], "B": [8000]},
-        rec={"A": dict(n_seq=1500, seq_len=40, n_conc=1200), "B": dict(n_seq=500, seq_len=40, n_conc=600)},
+        sim={"A": [10000, 10000], "B": [6000]},
+        rec={"A": dict(n_seq=1000, seq_len=40, n_conc=900), "B": dict(n_seq=400, seq_len=40, n_conc=450)},
         log_every=25,
     ),
 }
@@ -139,6 +139,7 @@ def judge_histories(ctx, hists, consts, mode, tag, budget=6):
         events = [e for _, h in todo for e in h]
         ok, rej, res = _validate(ctx, events, consts, mode, f"{tag}-{mode}-{rnd}")
         with LOCK:
+            vlib.log(f"[C15] trace validation ({mode}) {tag}: {len(todo)} histories, {len(events)} events, {res.wall:.0f}s, {'accepted' if ok else 'REJECTED ' + json.dumps(rej)}")
             ctx.tlc_stats(res, f"trace validation ({mode}) {tag}: {len(todo)} histories, {len(events)} events")
         if ok:
             accepted += todo
@@ -200,7 +201,7 @@ def tlc_jobs(ctx, S, unis):
     for cfg, b in S["mc"].items():
         c = write_consts(ctx, unis[cfg], "mc", **b)
         jobs.append((f"(M) exhaustive {cfg}", "mc", cfg, lambda c=c, cfg=cfg: run_tlc(
-            "MCMembership", f"Membership_{ctx.tier}.cfg", workers=4, timeout=3000, env={"C15_CONSTS": c},
+            "MCMembership", f"Membership_{ctx.tier}.cfg", workers=6, timeout=3000, env={"C15_CONSTS": c},
             coverage=(ctx.tier == "thorough"), heap="6g", tag=f"C15-mc-{cfg}")))
     for cfg, lst in S["paths"].items():
         for j, b in enumerate(lst):
@@ -214,7 +215,7 @@ def tlc_jobs(ctx, S, unis):
     for cfg, nums in S["sim"].items():
         c = write_consts(ctx, unis[cfg], "sim", ids=[1, 2, 3], errs=[1, 2], variants=[0, 1, 2, 3], depth=SIM_LEN)
         for j, num in enumerate(nums):
-            jobs.append((f"(R) {num} random walks of {SIM_LEN} {cfg}", "sim", cfg, lambda c=c, cfg=cfg, j=j, num=num: run_tlc(
+            jobs.append((f"(R) {num} random walks of {SIM_LEN} {cfg} (seed {ctx.seed * 1000 + j})", "sim", cfg, lambda c=c, cfg=cfg, j=j, num=num: run_tlc(
                 "MCMembership", "Membership_sim.cfg", workers=1, timeout=3000, env={"C15_CONSTS": c}, simulate=num,
                 depth=SIM_LEN + 1, seed=ctx.seed * 1000 + j, heap="4g", tag=f"C15-sim{j}-{cfg}")))
     return jobs
@@ -277,6 +278,7 @@ def run(ctx):
     hist_by_cfg = {cfg: [] for cfg in unis}
     fam_counts = {}
     for lab, kind, cfg, res in results:
+        vlib.log(f"[C15] {lab}: {res.wall:.0f}s, {res.distinct} distinct / {res.generated} generated, {len(res.cases)} behaviours")
         tlc_must_pass(res, lab)
         if kind == "mc":
             ctx.tlc_stats(res, lab + ": invariants NoSelfPeer ViewOk TypeOK, step properties (contract + design)")
